@@ -211,8 +211,12 @@ func checkC16(c cfg16) (string, string) {
 		}
 	}
 	if g1 > g0 {
-		// another test goroutine cannot appear: this package's tests are sequential
-		return "C16 goroutine-started", fmt.Sprintf("NewElection started %d goroutine(s) [%s]", g1-g0, c)
+		// the runtime starts goroutines of its own now and then (GC workers, timers): only goroutines with a
+		// frame of the library count, looked at after a moment so that a short-lived one has gone
+		time.Sleep(time.Millisecond)
+		if n := libraryGoroutines(); n > 0 {
+			return "C16 goroutine-started", fmt.Sprintf("NewElection left %d goroutine(s) with library frames running [%s]", n, c)
+		}
 	}
 	if col.n != 0 {
 		return "C16 collaborator-invoked", fmt.Sprintf("NewElection invoked Metrics/Logger/HealthChecker %d time(s) [%s]", col.n, c)
@@ -529,4 +533,17 @@ func TestC16(t *testing.T) {
 			}
 		})
 	})
+}
+
+// libraryGoroutines counts goroutines (other than the caller) whose stack has a frame of the library.
+func libraryGoroutines() int {
+	buf := make([]byte, 1<<20)
+	buf = buf[:runtime.Stack(buf, true)]
+	n := 0
+	for i, g := range strings.Split(string(buf), "\n\n") {
+		if i > 0 && strings.Contains(g, "NATS-Leader-Election/leader.") {
+			n++
+		}
+	}
+	return n
 }
